@@ -5,6 +5,8 @@ package stun
 
 const vxURIMax = 5
 
+const vxURISteps = 200000
+
 func vxSchemePrefix() (string, SchemeType) {
 	switch vxChoose(4) {
 	case 0:
@@ -25,7 +27,11 @@ func vh_C16_parse() {
 		max = 6
 	}
 	s := vxASCIIString(max)
-	u, err := ParseURI(prefix + s) // no panic, no unbounded recursion (engine obligations)
+	// "time bounded by the input length": at most vxURISteps SSA instructions for an input of at most 12
+	// bytes (the unchanged tree needs fewer than a tenth of that on its longest path; evidence: transitions / paths)
+	vxStepBudget(vxURISteps)
+	u, err := ParseURI(prefix + s) // no panic, no unbounded recursion, no unbounded loop (engine obligations)
+	vxStepBudget(0)
 	if err != nil {
 		vxReach("rejected")
 		vxAssert(u == nil, "an error comes without a URI")
